@@ -198,9 +198,9 @@ def pumping_families():
 
     for name, tmpl in expr_t.items():
         g = nester(tmpl, "a")
-        fams.append(("nestx." + name, (lambda n, g=g: "SELECT " + g(n)), [1, 2, 4, 8, 16]))
+        fams.append(("nestx." + name, (lambda n, g=g: "SELECT " + g(n)), [2, 4, 8]))
     for name, tmpl in stmt_t.items():
-        fams.append(("nests." + name, nester(tmpl, "SELECT 1"), [1, 2, 4, 8, 16]))
+        fams.append(("nests." + name, nester(tmpl, "SELECT 1"), [2, 4, 8]))
     for name, f in rep.items():
         fams.append(("rep." + name, f, [1, 2, 4, 8, 16, 32, 64]))
     for name, f in nest.items():
@@ -289,7 +289,7 @@ def worker(shard, nshards, plan, quick):
                         continue
                     R.one("".join(combo), dialect, levels, generate=False)
         elif kind == "fn_nest":
-            # every function name the parser registers, every type keyword and an unknown name, nested in itself to depth 5 and 10
+            # every function name the parser registers, every type keyword and an unknown name, nested in itself to depth 4 and 8
             P = D.parser_class
             types = {k for k, v in D.tokenizer_class.KEYWORDS.items() if v in P.TYPE_TOKENS and " " not in k and k.replace("_", "").isalnum()}
             names = sorted(set(getattr(P, "FUNCTIONS", {})) | set(getattr(P, "FUNCTION_PARSERS", {})) | types | {"F"})
@@ -298,9 +298,13 @@ def worker(shard, nshards, plan, quick):
                 idx += 1
                 if idx % nshards != shard:
                     continue
-                s5 = R.one("SELECT " + (name + "(") * 5 + "a" + ")" * 5, dialect, unit[2][:1], generate=False)
-                sql10 = "SELECT " + (name + "(") * 10 + "a" + ")" * 10
+                s5 = R.one("SELECT " + (name + "(") * 4 + "a" + ")" * 4, dialect, unit[2][:1], generate=False)
+                sql10 = "SELECT " + (name + "(") * 8 + "a" + ")" * 8
+                before = set(res["viol"])
                 s10 = R.one(sql10, dialect, unit[2][:1], generate=False)
+                for k in [k for k in set(res["viol"]) - before if k.startswith("C05|budget|")]:
+                    res["viol"].pop(k)   # the budget was exhausted at depth 8: growth of this name, reported below
+                    s10 = budget(len(sql10))
                 if s5 and s10 and s10 > 5 * s5 + 2000:
                     grew.append((name, s5, s10, sql10, name in types))
             res.setdefault("fn_grew", []).extend((dialect, len(names)) + g for g in grew)
@@ -314,13 +318,26 @@ def worker(shard, nshards, plan, quick):
                 prev_sql = None
                 for n in sizes:
                     sql = f(n)
+                    before = set(res["viol"])
                     steps = R.one(sql, dialect, levels)
+                    # a step budget exceeded inside a pumping family is growth of that family (reported once, with the family's name)
+                    blown = [k for k in set(res["viol"]) - before if k.startswith("C05|budget|")]
+                    for k in blown:
+                        v = res["viol"].pop(k)
+                        sig = f"C05|growth|{name}|{k.split('|')[2]}"
+                        if sig in res["viol"]:
+                            res["viol"][sig]["count"] += 1
+                        else:
+                            res["viol"][sig] = {"what": f"[{dialect or 'base'}] family {name} at n={n}: " + v["what"], "case": dict(v["case"], growth_from=prev_sql), "count": 1}
                     if steps:
                         res["max_steps_per_char"] = max(res["max_steps_per_char"], steps / max(len(sql), 1))
-                    if prev and steps and n >= 8 and steps > 5 * prev + 2000:
-                        sig = f"C05|growth|{name}|{dialect or 'base'}"
-                        res["viol"].setdefault(sig, {"what": f"[{dialect or 'base'}] family {name}: steps grew from {prev} to {steps} when n doubled to {n}",
-                                                     "case": {"dialect": dialect, "level": levels[0], "sql": sql, "phase": "parse", "growth_from": prev_sql}, "count": 1})
+                    if prev and steps and n >= 8 and steps > 5 * prev + 2000 and not blown:
+                        sig = f"C05|growth|{name}|parse"
+                        if sig in res["viol"]:
+                            res["viol"][sig]["count"] += 1
+                        else:
+                            res["viol"][sig] = {"what": f"[{dialect or 'base'}] family {name}: parse steps grew from {prev} to {steps} when n doubled to {n}",
+                                                "case": {"dialect": dialect, "level": levels[0], "sql": sql, "phase": "parse", "growth_from": prev_sql}, "count": 1}
                     prev = steps
                     prev_sql = sql
     res["viol"] = list(res["viol"].items())
@@ -391,16 +408,16 @@ def run(ctx: Ctx) -> None:
         fn_summary[d or "base"] = len(hits)
         if len(hits) * 2 > info["n"]:
             name, s5, s10, sql10, _ = next((h for h in hits if h[0] == "F"), hits[0])
-            viol[f"C05|growth|nest.fn:any|{d or 'base'}"] = {"what": f"[{d or 'base'}] {len(hits)} of {info['n']} function names (e.g. {name}): parse steps grow from {s5} (5 nested calls) to {s10} (10 nested calls)",
-                                                            "case": {"dialect": d, "level": "IMMEDIATE", "sql": sql10, "phase": "parse", "growth_from": "SELECT " + (name + "(") * 5 + "a" + ")" * 5}, "count": len(hits)}
+            viol[f"C05|growth|nest.fn:any|{d or 'base'}"] = {"what": f"[{d or 'base'}] {len(hits)} of {info['n']} function names (e.g. {name}): parse steps grow from {s5} (4 nested calls) to {s10} (8 nested calls)",
+                                                            "case": {"dialect": d, "level": "IMMEDIATE", "sql": sql10, "phase": "parse", "growth_from": "SELECT " + (name + "(") * 4 + "a" + ")" * 4}, "count": len(hits)}
             continue
         for name, s5, s10, sql10, is_type in hits:
             sig = "C05|growth|nest.fn:type_keyword" if is_type else f"C05|growth|nest.fn:{name}"
             if sig in viol:
                 viol[sig]["count"] += 1
             else:
-                viol[sig] = {"what": f"[{d or 'base'}] nested calls of {name}: parse steps grow from {s5} (depth 5) to {s10} (depth 10)" + (" - the name is a type keyword; every such name behaves alike" if is_type else ""),
-                             "case": {"dialect": d, "level": "IMMEDIATE", "sql": sql10, "phase": "parse", "growth_from": "SELECT " + (name + "(") * 5 + "a" + ")" * 5}, "count": 1}
+                viol[sig] = {"what": f"[{d or 'base'}] nested calls of {name}: parse steps grow from {s5} (depth 4) to {s10} (depth 8)" + (" - the name is a type keyword; every such name behaves alike" if is_type else ""),
+                             "case": {"dialect": d, "level": "IMMEDIATE", "sql": sql10, "phase": "parse", "growth_from": "SELECT " + (name + "(") * 4 + "a" + ")" * 4}, "count": 1}
     for sig, v in sorted(viol.items()):
         ctx.violation(sig, v["what"], v["case"], v["count"])
     ctx.evidence(
@@ -410,7 +427,7 @@ def run(ctx: Ctx) -> None:
             "distinct_nontrivial": res["nontrivial"],
             "rule": "every 1-token mutant (delete/duplicate/swap; insert of each of 40 menu tokens for the simplest seeds) and every prefix of "
                     "G_core k<=1 statements, of identity.sql and of every statement of tests/dialects/*.py in its own dialect (" + str(len(corpus.dialect_test_sql())) + " seeds); every token soup of length <= 3 over the 40-token menu; every "
-                    "character string of length <= 3 over a 34-character alphabet; 84 pumping families (repetition to 64, nesting to 32; every construct with an expression / query hole nested in itself to 16) in all dialects; every registered function name and type keyword nested in itself to depth 5 and 10; x dialects x "
+                    "character string of length <= 3 over a 34-character alphabet; 84 pumping families (repetition to 64, nesting to 32; every construct with an expression / query hole nested in itself to 8) in all dialects; every registered function name and type keyword nested in itself to depth 4 and 8; x dialects x "
                     "error levels; every returned tree generated in its own and the base dialect; every G_clauses statement (base) and every "
                     "dialect-test statement (own dialect) generated into ALL dialects; every function name registered by each dialect's parser called "
                     "with 0..5 positional arguments, DISTINCT, * and named arguments. non-trivial = runs that ended in a "
